@@ -37,3 +37,19 @@ Proof.
   intros Hs Ha Hb H. rewrite (dec_scan_exact_without_splits _ _ _ _ _ Hs) in H.
   exact (sfl_info_rule bef t sold aft st r Ha Hb H).
 Qed.
+
+(* C03 for the real arithmetic on such histories: gains are conserved in the
+   ROUNDED ledger *)
+From ACB Require Import Proofs.C03Conserve.
+Theorem dec_conservation_when_representable init txs ds :
+  run rep init txs = (ds, None) ->
+  Forall c03_row txs ->
+  run dec init txs = (ds, None) /\
+  forall p rest, ds = p ++ rest -> head_not_sfla rest -> Forall not_over p ->
+    sum_gains p
+    = (sum_proceeds p - (sum_costs p + total_acb (spec_init init)) + sum_roc (spec_init init) p
+       + total_acb (after (spec_init init) p))%Qc.
+Proof.
+  intros H HV. destruct (dec_equals_exact_when_representable _ _ _ _ H eq_refl) as [Hd He].
+  split; [exact Hd|]. exact (run_conserved init txs ds He HV).
+Qed.
